@@ -13,6 +13,18 @@ CHECKS = {
         note="Trusts vf/sgr.py as the ANSI terminal (ECMA-48/xterm SGR semantics for the supported parameters) and cell equality (bold=False == absent) as 'same formatting'.",
         ref="4/C01",
     ),
+    "C03": dict(
+        technique="exhaustive decision-tree enumeration (multiprocessing) + cross-product enumeration + Hypothesis byte-stream generation against an independent tokeniser model",
+        text="Exploration, exhaustive on the decoder's ESC-rooted decision tree (every node x every next byte x full in {F,T} x 3 encodings x 3 naming modes), on the valid-UTF-8 prefix tree (quick: <=2-byte prefixes; thorough: all 17.6k prefixes x 256), on table-sequence x next-byte, and (thorough) table x table pairs and all 1,112,064 Unicode scalars; sampled off the valid UTF-8 paths (2^40 leaves) and for multi-read streams.",
+        note="The two name tables are the specification (read as data); UTF-8 validity per RFC 3629 automaton in vf/keymodel.py; one known finding (esc-prefix-then-highbyte) is excluded by a narrow matcher and counted.",
+        ref="4/C03",
+    ),
+    "C20": dict(
+        technique="exhaustive lock-step enumeration of the decision tree under the three naming modes + exhaustive config-name enumeration against the decoder-derived set of producible names",
+        text="Exploration, exhaustive on the ESC subtree and (thorough) the valid UTF-8 prefix tree in lock-step over the three modes, on both tables, and on all 128 valid configuration names plus an invalid catalogue; Hypothesis walks for other byte strings.",
+        note="The set P of producible names is computed by driving the real decoder over every table sequence and every single byte; lower-case C-<letter> only.",
+        ref="4/C20",
+    ),
     "C05": dict(
         technique="Hypothesis round-trip and grammar-based differential test against an independent SGR interpreter, plus enumeration of attribute sets",
         text="Exploration: round trip from_str(str(f)) over enumerated attribute sets and generated FmtStr values (texts with newlines/controls), and grammar strings (text | ESC[p;..m)* judged per character by an independent SGR interpreter. Sampled, not exhaustive, beyond the single-run attribute space.",
